@@ -3,6 +3,7 @@
 # Like seedtest.sh but never touches /repo or /verif: a scratch worktree of /repo HEAD gets the
 # patch, a scratch copy of /verif (with its .lake build) runs the property's check against it
 # (DCLAB_REPO).  Several of these can run concurrently.  Everything is removed afterwards.
+# VERIF_SRC=<dir> uses that copy of the framework (e.g. a scratch worktree of /verif) instead of /verif.
 set -u
 d=$(realpath $1); tier=${2:-quick}; seed=${3:-0}
 n=$(basename $(dirname $d))-$(basename $d)-$$
@@ -11,7 +12,7 @@ base=/tmp/iso/$n; mkdir -p $base
 git -C /repo worktree add -q --detach $base/repo HEAD || exit 2
 (cd /repo && git ls-files --others --ignored --exclude-standard | grep -E '\.so$|_version\.py$' | while read f; do mkdir -p $base/repo/$(dirname $f); cp $f $base/repo/$f; done)
 git -C $base/repo apply "$d/patch.diff" || { echo "patch does not apply: $d"; git -C /repo worktree remove --force $base/repo; rm -rf $base; exit 2; }
-rsync -a --exclude .git --exclude .work --exclude 'evidence/replays' /verif/ $base/verif/
+rsync -a --exclude .git --exclude .work --exclude 'evidence/replays' ${VERIF_SRC:-/verif}/ $base/verif/
 out=$(cd $base/verif && DCLAB_REPO=$base/repo VERIF_SEED=$seed ./check $prop --tier $tier 2>&1); rc=$?
 echo "$out" | grep -E "VIOLATION|KNOWN-FINDING|INFRA|tier=" | cut -c1-260
 for f in $base/verif/evidence/replays/*.json; do [ -f "$f" ] && { echo "--- $(basename $f)"; head -c 400 $f | tr '\n' ' '; echo; }; done
